@@ -166,6 +166,8 @@ class AffStub(om.ExplicitComponent):
         for o in s['outs']:
             for i in s['ins']:
                 key = o['name'] + '|' + i['name']
+                if key in s.get('undeclared', []):
+                    continue        # no dependence, not declared
                 const = not (q and q['out'] == o['name'] and q['in'] == i['name'])
                 self._decl[key] = _declare(self, o['name'], i['name'], s['A'][o['name']][i['name']],
                                            s['fmt'][key], const)
